@@ -1,12 +1,154 @@
 import ElvisVerif.Model.TcpSys
+import ElvisVerif.Lemmas.TcbInv
 /-!
 # C17 — A TCP endpoint withstands arbitrary segments from its peer address
 
-State of this file: the model follows the CURRENT code, which falsifies the property.  Each
-`…_counterexample` is a concrete op sequence of the two-endpoint system (the same op lines
-replay on the real code through `harness-core c17 --replay`).
+Property theorems only (helper lemmas: `Lemmas/{ModCmp,Heap,Tcb,TcbInv}.lean`).  The model
+(`Model/Tcb.lean`) follows the repaired code (six `fix:` commits, see `notes/C17.md`).
+
+* `c17_total` — on a well-formed TCB every call (any segment with any flags / sequence /
+  acknowledgment numbers / window and a payload an IPv4 datagram can carry, and every API call)
+  returns without panic and leaves the TCB well-formed; `c17_no_crash` lifts this to every
+  finite sequence of calls by induction; `c17_open_wf`, `c17_listen_wf`: the two ways a TCB comes
+  into existence give well-formed TCBs.
+* `c17_unacceptable_noop` — a segment a conforming receiver must treat as unacceptable changes
+  nothing but the one-shot output queue (at most one ACK or RST is appended).
+* `c17_window` — see the section on the send window below.
+* `c17_regression_*` — the concrete witnesses of the repaired defects, evaluated on the model.
 -/
 namespace Elvis.Tcp
+open Tcb
+
+/-! ## no sequence of calls crashes the endpoint -/
+
+/-- everything the peer (segments) and the local user and timer (API calls) can do to a TCB -/
+inductive Call
+  | segmentArrives (seg : Segment)
+  | advanceTime (ms : Nat)
+  | send (bytes : List UInt8)
+  | receive
+  | close
+  | abort
+  | segments
+  deriving Repr
+
+/-- syntactically valid: the segment text fits an IPv4 datagram (65535 − 20 − 20 … we allow the
+    full 65515) -/
+def Call.Valid : Call → Prop
+  | .segmentArrives seg => seg.text.length ≤ MAX_PAYLOAD
+  | _ => True
+
+/-- one call: a panic, or the TCB afterwards (`none` = the caller deletes the TCB) -/
+def Tcb.call (s : Tcb) : Call → Except String (Option Tcb)
+  | .segmentArrives seg =>
+    match s.segmentArrives seg with
+    | .error e => .error e
+    | .ok (s, .Ok) => .ok (some s)
+    | .ok (_, .Close) => .ok none
+  | .advanceTime ms =>
+    match s.advanceTime ms with
+    | .error e => .error e
+    | .ok (s, .Ignore) => .ok (some s)
+    | .ok (_, .CloseConnection) => .ok none
+  | .send bytes => .ok (some (s.send bytes))
+  | .receive => .ok (some s.receive.1)
+  | .close =>
+    match s.close with
+    | .error e => .error e
+    | .ok (s, _) => .ok (some s)
+  | .abort =>
+    match s.abort with
+    | .error e => .error e
+    | .ok s => .ok (some s)
+  | .segments =>
+    match s.segments with
+    | .error e => .error e
+    | .ok (s, _) => .ok (some s)
+
+/-- a sequence of calls; stops when the TCB is deleted -/
+def Tcb.run : Option Tcb → List Call → Except String (Option Tcb)
+  | none, _ => .ok none
+  | some s, [] => .ok (some s)
+  | some s, c :: cs =>
+    match s.call c with
+    | .error e => .error e
+    | .ok s' => Tcb.run s' cs
+
+/-- **Totality.** On a well-formed TCB no call panics, and the TCB (when it survives) is
+    well-formed again. -/
+theorem c17_total (s : Tcb) (h : Wf s) (hi : HeapIdle s) (c : Call) (hc : c.Valid) :
+    ∃ r, s.call c = .ok r ∧ ∀ s', r = some s' → Wf s' ∧ HeapIdle s' := by
+  have keep : ∀ s' : Tcb, Same s s' → (s'.state = .SynSent → s.state = .SynSent) → Wf s' ∧ HeapIdle s' :=
+    fun s' same st => ⟨h.of_rx (same.rx st), fun hs => by rw [same.incoming]; exact hi (st hs)⟩
+  cases c with
+  | segmentArrives seg =>
+    obtain ⟨s1, r1, e1, wf1, idle1⟩ := segmentArrives_spec s seg h hi hc
+    simp only [Tcb.call, e1]
+    cases r1 with
+    | Ok => exact ⟨_, rfl, fun s' hs => by cases hs; exact ⟨wf1, idle1 rfl⟩⟩
+    | Close => exact ⟨_, rfl, fun s' hs => by simp at hs⟩
+  | advanceTime ms =>
+    obtain ⟨s1, r1, e1, same1, st1⟩ := advanceTime_spec s ms
+    simp only [Tcb.call, e1]
+    cases r1 with
+    | Ignore => exact ⟨_, rfl, fun s' hs => by cases hs; exact keep _ same1 (by rw [st1]; exact id)⟩
+    | CloseConnection => exact ⟨_, rfl, fun s' hs => by simp at hs⟩
+  | send bytes =>
+    have := send_same s bytes
+    exact ⟨_, rfl, fun s' hs => by cases hs; exact keep _ this.1 (by rw [this.2]; exact id)⟩
+  | receive =>
+    have := receive_rx s
+    refine ⟨_, rfl, fun s' hs => ?_⟩
+    cases hs
+    exact ⟨h.of_rx this.1, fun hs => by rw [this.1.heap]; exact hi (by rw [← this.2]; exact hs)⟩
+  | close =>
+    obtain ⟨s1, r1, e1, same1, st1⟩ := close_spec s
+    simp only [Tcb.call, e1]
+    exact ⟨_, rfl, fun s' hs => by cases hs; exact keep _ same1 st1⟩
+  | abort =>
+    obtain ⟨s1, e1, same1, st1⟩ := abort_spec s
+    simp only [Tcb.call, e1]
+    exact ⟨_, rfl, fun s' hs => by cases hs; exact keep _ same1 (by rw [st1]; exact id)⟩
+  | segments =>
+    obtain ⟨s1, out, e1, same1, st1⟩ := segments_spec s h
+    simp only [Tcb.call, e1]
+    exact ⟨_, rfl, fun s' hs => by cases hs; exact keep _ same1 (by rw [st1]; exact id)⟩
+
+/-- **No finite sequence of segments and API calls crashes the endpoint** (induction over the
+    sequence). -/
+theorem c17_no_crash (s : Tcb) (h : Wf s) (hi : HeapIdle s) (cs : List Call) (hcs : ∀ c ∈ cs, c.Valid) :
+    ∃ r, Tcb.run (some s) cs = .ok r := by
+  induction cs generalizing s with
+  | nil => exact ⟨_, rfl⟩
+  | cons c cs ih =>
+    obtain ⟨r, e, wf⟩ := c17_total s h hi c (hcs c (by simp))
+    unfold Tcb.run
+    rw [e]
+    cases r with
+    | none => exact ⟨_, by unfold Tcb.run; rfl⟩
+    | some s' =>
+      obtain ⟨wf', idle'⟩ := wf s' rfl
+      exact ih s' wf' idle' (fun c hc => hcs c (by simp [hc]))
+
+/-- an active open yields a well-formed TCB (any ISS, any MTU that leaves room for the headers;
+    the property quantifies over MTU ≥ 100) -/
+theorem c17_open_wf (lp rp : U16) (iss : Seq) (mtu : U16) (hm : SPACE_FOR_HEADERS ≤ mtu.toNat) :
+    ∃ s, Tcb.open lp rp iss mtu = .ok s ∧ Wf s ∧ HeapIdle s := open_spec lp rp iss mtu hm
+
+/-- LISTEN never panics, whatever arrives, and a TCB it creates is well-formed -/
+theorem c17_listen_wf (segment : Segment) (iss : Seq) (mtu : U16) (hm : SPACE_FOR_HEADERS ≤ mtu.toNat)
+    (hp : segment.text.length ≤ MAX_PAYLOAD) :
+    ∃ r, segmentArrivesListen segment iss mtu = .ok r ∧
+      ∀ tcb, r = some (.Tcb tcb) → Wf tcb ∧ HeapIdle tcb := listen_spec segment iss mtu hm hp
+
+/-- non-vacuity: a freshly opened TCB satisfies the hypotheses of `c17_total` -/
+example : ∃ s, Tcb.open 1 2 1000 1500 = .ok s ∧ Wf s ∧ HeapIdle s :=
+  c17_open_wf 1 2 1000 1500 (by decide)
+
+/-! ## regression witnesses of the repaired defects
+
+Concrete op sequences of the two-endpoint system (`Model/TcpSys.lean`); the same op lines are
+in `corpus/C17/fuzz/*.ops` and replay on the real code. -/
 
 /-- handshake: A opens (ISS 1000), B listens (ISS 5000), SYN / SYN-ACK delivered: A ESTABLISHED -/
 def handshakeOps : List Op :=
